@@ -26,8 +26,23 @@ TIMING_VALUES = {"INITIAL_DELAY_MIN": 101, "INITIAL_DELAY_MAX": 103, "REPETITION
                  "SUBSCRIBE_TTL": 23, "SUBSCRIBE_REFRESH_INTERVAL": 29, "FIND_TTL": 31, "SEND_COLLECTION_TIMEOUT": 37, "REPETITIONS_MAX": 2}
 
 
-def timing_leaf(owner_self, overrides=None, extra=None):
-    vals = dict(TIMING_VALUES)
+# further valuations in which the relative order of the constants is different: an expression such as
+# min(2**i * base, FIND_TTL) agrees with 2**i * base under one assignment of magnitudes but not under all
+TIMING_VALUATIONS = [
+    dict(TIMING_VALUES),
+    # everything tiny except the repetition base delay (caps by a TTL or another period become visible)
+    {"INITIAL_DELAY_MIN": 0.019, "INITIAL_DELAY_MAX": 0.023, "REPETITIONS_BASE_DELAY": 5003, "CYCLIC_OFFER_DELAY": 0.007, "ANNOUNCE_TTL": 0.013,
+     "REQUEST_RESPONSE_DELAY_MIN": 0.037, "REQUEST_RESPONSE_DELAY_MAX": 0.041, "SUBSCRIBE_TTL": 0.047, "SUBSCRIBE_REFRESH_INTERVAL": 0.043,
+     "FIND_TTL": 0.011, "SEND_COLLECTION_TIMEOUT": 0.053, "REPETITIONS_MAX": 2},
+    # periods huge, TTLs tiny
+    {"INITIAL_DELAY_MIN": 6007, "INITIAL_DELAY_MAX": 7001, "REPETITIONS_BASE_DELAY": 0.5, "CYCLIC_OFFER_DELAY": 4001, "ANNOUNCE_TTL": 0.25,
+     "REQUEST_RESPONSE_DELAY_MIN": 2003, "REQUEST_RESPONSE_DELAY_MAX": 2011, "SUBSCRIBE_TTL": 0.125, "SUBSCRIBE_REFRESH_INTERVAL": 10007,
+     "FIND_TTL": 0.0625, "SEND_COLLECTION_TIMEOUT": 1009, "REPETITIONS_MAX": 2},
+]
+
+
+def timing_leaf(owner_self, overrides=None, extra=None, valuation=None):
+    vals = dict(valuation if valuation is not None else TIMING_VALUES)
     vals.update(overrides or {})
 
     def leaf(tm):
@@ -97,8 +112,9 @@ def check(run, prog, tier):
     def note(key, msg):
         problems.setdefault(key, msg)
 
-    for cyc in (11, 0):
-        leaf = timing_leaf(me, {"CYCLIC_OFFER_DELAY": cyc})
+    for V, cyc in [(V_, c_) for V_ in TIMING_VALUATIONS for c_ in (V_["CYCLIC_OFFER_DELAY"], 0)]:
+        leaf = timing_leaf(me, {"CYCLIC_OFFER_DELAY": cyc}, valuation=V)
+        BASE, IMIN, IMAX = V["REPETITIONS_BASE_DELAY"], V["INITIAL_DELAY_MIN"], V["INITIAL_DELAY_MAX"]
         for p in paths:
             try:
                 if not all(bool(eval_term(c, leaf)) == v for c, v, _, _ in p.conds if not contains(c, lambda s: s[0] == "attr" and s[2] == "ANNOUNCE_TTL")):
@@ -127,17 +143,17 @@ def check(run, prog, tier):
             normal = [s for s in offers if not s[1]]
             stops = [s for s in offers if s[1]]
             # --- phase model
-            want = [("uniform", 101, 103)] + [(2 ** i) * 7 for i in range(len(sleeps) - 1)]
             reps = [s for s in sleeps[1:]]
             # repetition sleeps first, cyclic sleeps afterwards
             k = 0
-            while k < len(reps) and reps[k] == (2 ** k) * 7:
+            while k < len(reps) and k < V["REPETITIONS_MAX"] and reps[k] == (2 ** k) * BASE:
                 k += 1
             tail = reps[k:]
-            if sleeps and sleeps[0] != ("uniform", 101, 103):
-                note("O1:initial-delay", f"first wait is {sleeps[0]!r}; must be uniform(INITIAL_DELAY_MIN, INITIAL_DELAY_MAX)")
+            if sleeps and sleeps[0] != ("uniform", IMIN, IMAX):
+                note("O1:initial-delay", f"first wait is {sleeps[0]!r} for window ({IMIN}, {IMAX}); must be uniform(INITIAL_DELAY_MIN, INITIAL_DELAY_MAX)")
             if any(t_ != cyc for t_ in tail):
-                note("O1:phase-delays", f"waits after the initial one are {reps} with base delay 7 and cyclic period {cyc}: expected 2**i*base repetitions, then the cyclic period")
+                note("O1:phase-delays", f"waits after the initial one are {reps} with base delay {BASE}, cyclic period {cyc}, TTL {V['ANNOUNCE_TTL']}: "
+                     "expected 2**i*base repetitions, then the cyclic period")
             if tail and not cyc:
                 note("O1:non-cyclic-goes-on", "a non-cyclic instance keeps offering after the repetition phase")
             # each completed sleep is followed by exactly one offer before the next sleep; no offer before the first sleep
@@ -183,7 +199,7 @@ def check(run, prog, tier):
                     seen_offer = True
                 if s_[0] == "flag" and s_[1] == const(True) and not seen_offer:
                     note("O3:flag-set-before-first-offer", "finds may be answered before the first offer was sent (initial wait phase)")
-    run.floor("O1-paths", n_checked, 6)
+    run.floor("O1-paths", n_checked, 12)
     for key in ("O1:initial-delay", "O1:phase-delays", "O1:non-cyclic-goes-on", "O1:offer-per-wait", "O1:offer-before-initial-wait",
                 "O1:offer-destination", "O1:unexpected-await"):
         run.ob("O1", f"{ot.qual}:{key[3:]}", key not in problems, loc(ot), problems.get(key, "holds on every enumerated path (with cancellation at every await)"))
